@@ -92,16 +92,22 @@ class _Abort(BaseException):
 
 
 class TracingLock:
-    """Delegates to the tree's real lock object; announces try / acq / rel."""
+    """Delegates to the tree's real lock object; announces try / acq / rel.
+    lk numbers the lock objects made for one run; the first acquire of each thread announces which one it uses."""
 
-    def __init__(self, inner, sched: Scheduler):
+    def __init__(self, inner, sched: Scheduler, lk=1):
         self.inner = inner
         self.sched = sched
         self.owner = None
         self.depth = 0
+        self.lk = lk
+        self.users = set()
 
     def acquire(self, blocking=True, timeout=-1):
         me = threading.get_ident()
+        if me not in self.users:
+            self.users.add(me)
+            self.sched.rec.log(self.sched.name(), "uses", self.lk)
         if self.owner == me and self.depth >= (1 if self.sched.name().startswith("r") else 2):
             # a snapshot operation may nest acquisitions of the re-entrant lock (e.g. TypedTree.save -> Tree.save):
             # the protocol steps are a reader's OUTERMOST acquire / release and, for the owner's nested snapshot
@@ -162,10 +168,79 @@ class TracingLock:
         self.release()
 
 
+class _LockFactory:
+    """Stands in for the `threading` module as nutree.tree sees it while one run is set up and executed: lock objects
+    the library creates are born as TracingLocks.  A lock created by one of the run's threads (i.e. lazily, inside an
+    operation, instead of at construction) is announced ("newlock"), and the creating thread lingers a moment between
+    "there is no lock yet" and handing the new lock back - the window in which another thread can come by."""
+
+    def __init__(self, real, sched: Scheduler):
+        self._real = real
+        self._sched = sched
+        self._cv = real.Condition()
+        self._made = 0
+        self._lazy = 0
+        self._main = None
+
+    def __getattr__(self, name):
+        return getattr(self._real, name)
+
+    def _make(self, inner):
+        import sys
+        owner = sys._getframe(2).f_locals.get("self")     # the object whose method asked for the lock
+        with self._cv:
+            if self._main is None and owner is not None:
+                self._main = owner                            # the first tree built under the factory: the run's tree
+            if owner is None or owner is not self._main:
+                return inner                                  # locks of other trees (targets, copies) are not traced
+            self._made += 1
+            tl = TracingLock(inner, self._sched, self._made)
+        who = self._sched.name()
+        if who != "?":
+            self._sched.rec.log(who, "newlock", tl.lk)
+            with self._cv:
+                self._lazy += 1
+                self._cv.notify_all()
+                self._cv.wait_for(lambda: self._lazy >= 2, 0.05)
+        return tl
+
+    def RLock(self, *a, **kw):
+        return self._make(self._real.RLock(*a, **kw))
+
+    def Lock(self, *a, **kw):
+        return self._make(self._real.Lock(*a, **kw))
+
+
+class _install_factory:
+    def __init__(self, sched):
+        import nutree.tree as nt
+        self.nt = nt
+        self.sched = sched
+
+    def __enter__(self):
+        self.saved = {}
+        nt = self.nt
+        if getattr(nt, "threading", None) is threading:
+            self.saved["threading"] = nt.threading
+            nt.threading = _LockFactory(threading, self.sched)
+            fac = nt.threading
+        else:
+            fac = _LockFactory(threading, self.sched)
+        for nm in ("RLock", "Lock"):     # `from threading import RLock`
+            if getattr(nt, nm, None) is getattr(threading, nm):
+                self.saved[nm] = getattr(nt, nm)
+                setattr(nt, nm, getattr(fac, nm))
+        return self
+
+    def __exit__(self, *a):
+        for nm, v in self.saved.items():
+            setattr(self.nt, nm, v)
+
+
 # ------------------------------------------------------------------------------------------------
 BASE = ["x", "y"]  # the tree's committed initial content
 OPS = ["save_stream", "save_path", "copy", "copy_pred", "filtered", "copy_to", "to_dict_list", "to_dotfile", "with",
-       "copy_to_refused", "save_mapper_raises"]
+       "copy_to_refused", "save_mapper_raises", "to_dotfile_path"]
 SILENT_READ_OPS = {"copy", "copy_to", "copy_to_refused"}  # operations without a user callback: reads cannot be announced
 
 
@@ -284,6 +359,11 @@ def run_reader_op(tree, op, sched: Scheduler, tmpdir):
         fp = io.StringIO()
         tree.to_dotfile(fp, node_mapper=mapper)
         return markers(_dot_names(fp.getvalue())), calls["n"]
+    if op == "to_dotfile_path":
+        path = f"{tmpdir}/lock_{threading.get_ident()}.gv"
+        tree.to_dotfile(path, node_mapper=mapper)
+        with open(path) as f:
+            return markers(_dot_names(f.read())), calls["n"]
     if op == "with":
         with tree:
             sched.step("read")
@@ -310,7 +390,6 @@ def build_tree(typed=False):
 def run_trace(op, *, schedule=None, nested=True, nested_op="to_dict_list", writers=("w1",), readers=("r1",), tmpdir="/tmp",
               trace_id=0, reader_ops=None, typed=False, rebuild=False):
     """One execution with real threads.  Returns the trace record for TraceLock."""
-    tree = build_tree(typed)
     rec = Recorder()
     silent = set()
     rops = reader_ops or {r: op for r in readers}
@@ -320,7 +399,15 @@ def run_trace(op, *, schedule=None, nested=True, nested_op="to_dict_list", write
     for w in writers:
         silent.add((w, "read"))  # the owner's nested snapshot is observed through its content (nsnap)
     sched = Scheduler(rec, schedule, silent)
-    tree._lock = TracingLock(tree._lock, sched)
+    with _install_factory(sched):
+        return _run_trace(sched, rec, rops, op, schedule=schedule, nested=nested, nested_op=nested_op, writers=writers,
+                          readers=readers, tmpdir=tmpdir, trace_id=trace_id, typed=typed, rebuild=rebuild)
+
+
+def _run_trace(sched, rec, rops, op, *, schedule, nested, nested_op, writers, readers, tmpdir, trace_id, typed, rebuild):
+    tree = build_tree(typed)
+    if tree._lock is not None and not isinstance(tree._lock, TracingLock):
+        tree._lock = TracingLock(tree._lock, sched)    # a lock object the factory did not see being made
     errors = []
     version = {"v": 0}
 
